@@ -1,5 +1,6 @@
 import Pyunicorn.Model.Proto
 import Pyunicorn.Model.Mpi
+import Pyunicorn.Model.MpiProto
 import Pyunicorn.Generated.ArithC19
 /-! Line-protocol driver for C19. -/
 open Pyunicorn Pyunicorn.Proto Pyunicorn.Generated
@@ -25,6 +26,38 @@ def chunksAnswer (mpF : Int → Int → Int) (stepF partsF : Int → Int → Int
   s!"{mp} {step} {parts} " ++ (if cs.isEmpty then "-" else
     join (cs.map fun (a, b) => s!"{a}:{b}") ",")
 
+/-! whole-protocol model: `proto <size> <ops> <schedule>` -/
+
+/-- the job the harness registers for the real `serve()` loop: `tag ↦ tag² + 1` -/
+def jobF (p : Nat) : Nat := p * p + 1
+
+def parseOp (s : String) : Option (MpiProto.Op Nat) :=
+  match s.splitOn "." with
+  | ["s", id, p, e, sl] => some (.submit id.toNat! p.toNat! e.toInt! (if sl == "x" then none else some sl.toNat!))
+  | ["g", id] => some (.get id.toNat!)
+  | ["n"] => some .getNext
+  | _ => none
+
+def showErr : Option MpiProto.Err → String
+  | none => "none" | some .alreadyQueued => "alreadyQueued" | some .keyError => "keyError"
+  | some .outOfOrder => "outOfOrder"
+
+def dash (xs : List String) : String := if xs.isEmpty then "-" else join xs ","
+
+def protoAnswer (size : Nat) (ops sched : String) : String :=
+  let prog := (splitTok ops ",").filterMap parseOp
+  let r := MpiProto.runSched jobF (MpiProto.init (β := Nat) size prog) (nats sched)
+  let st := r.1
+  let ranks := (List.range size).drop 1
+  s!"err={showErr st.err} fin={if st.finished then 1 else 0} " ++
+  s!"got={dash (st.got.map fun (i, v) => s!"{i}:{v}")} " ++
+  s!"sent={dash (st.sentLog.map fun (s, p) => s!"{s}:{p}")} " ++
+  s!"exec={dash (st.execLog.map fun (s, p) => s!"{s}:{p}")} " ++
+  s!"nproc={showNats (ranks.map st.mnproc)} snproc={showNats (ranks.map st.nproc)} " ++
+  s!"est={showInts (ranks.map st.est)} " ++
+  s!"left={showNats (st.queue.map (·.1))} assigned={dash (st.assigned.map fun (i, s) => s!"{i}:{s}")} " ++
+  s!"alive={showBools (ranks.map st.alive)} todo={st.prog.length} skipped={r.2}"
+
 def answer (toks : List String) : String :=
   match toks with
   | ["chunks", "newman", size, n] =>
@@ -42,6 +75,10 @@ def answer (toks : List String) : String :=
       | .ok ids => "ok " ++ showNats ids
       | .error e => "err " ++ (match e with
           | .alreadyQueued => "alreadyQueued" | .keyError => "KeyError" | .outOfOrder => "outOfOrder")
+  | ["proto", size, ops, sched] => protoAnswer size.toNat! ops sched
+  | ["split", n, xs] =>
+      let parts := MpiProto.arraySplit (nats xs) n.toNat!
+      if parts.isEmpty then "-" else join (parts.map showNats) ";"
   | _ => "bad-request"
 
 def main : IO Unit := runDriver answer
